@@ -233,6 +233,12 @@ def extra_C02(tier, seed, ROOT, SYMX, sh):
         "every vector type x {bool, i8, u16, i32, u64, Wrapping<i16>, f32, f64}: all 2^n zero/non-zero patterns up to n=10 (quick) or n=16 (thorough); for wider vectors every pattern within 2 flips of all-zero / all-non-zero plus seeded random patterns; non-zero values cycle through extremes (MIN, MAX, -1, NaN, infinities, subnormals)")
     return problems, {"traces_validated_against_impl": extra["cases"], "bool_reduce_correspondence": extra}, wit
 
+def extra_C19(tier, seed, ROOT, SYMX, sh):
+    problems, extra, wit = run_corr("shufmask", "ShuffleMask", tier, seed, ROOT, sh,
+        "ShuffleMask4 built from machine words (new / From<usize> / From<tuple> / From<[usize;4]>), to_indices, ==, or the lanes picked by shuffle_lo_hi / shuffled on Vec4 / Rgba disagree with the extracted Coq model ShuffleMask, for which C19_mask_* are proved for every word",
+        "all 4-tuples over a pool of edge words (0..8, 255, 256, usize::MAX and neighbours, 2^63, alternating bit patterns, seeded random words) cycled over the three constructors, plus 20000 (thorough 400000) seeded tuples mixing small, near-MAX, power-of-two and random words; each case: indices, shuffle_lo_hi and shuffled lanes on integer vectors, the broadcast mask, and equality with a tuple that differs only in high bits")
+    return problems, {"shuffle_mask_correspondence": extra, "traces_validated_against_impl": extra["cases"]}, wit
+
 def extra_C15(tier, seed, ROOT, SYMX, sh):
     problems, extra, wit = run_corr("len", "PolyLen", tier, seed, ROOT, sh,
         "length_by_discretization(step_count) does not sum one segment per parameter (i+1)/(step_count+1), i = 0..step_count, ending at 1 (extracted Coq model PolyLen)",
